@@ -6,8 +6,9 @@ Correspondence:
      4x8; the assignment is compared channel by channel with the model evaluated in Coq.
  (B) optimize_prec_assignment on per-channel MPS models with the NE16 cost: the cost of every count
      vector reachable by upward moves is obtained from the implementation's own _compute_cost and handed
-     to the model's `refine` as a table; the counts the model keeps must be the counts found in the
-     implementation after the call.
+     to the model (`run_pipeline`: the two searches, then the reassignment of the layer's own alpha matrix) as a
+     table; the counts the model keeps must be the counts found in the implementation after the call and the model's
+     new precision index of EVERY channel must be the implementation's.
 Oracle: the sentences of the property on the implementation (every channel one precision, counts met;
 no channel demoted, counts = the ones the refinement chose (its own report), cost not higher).
 """
@@ -217,6 +218,7 @@ def run(ctx):
             m(m._input_example)
             layers = per_channel_layers(m)
             before = {n: chan_prec(l) for n, l in layers.items()}
+            alpha0 = {n: [[float(x) for x in row] for row in l.w_mps_quantizer.alpha.detach()] for n, l in layers.items()}
             c0 = float(m.get_cost('ne16'))
             tables = {}
             for n, l in layers.items():
@@ -233,6 +235,7 @@ def run(ctx):
                 utils.optimize_prec_assignment(m, 'ne16')
             m(m._input_example)
             after = {n: chan_prec(l) for n, l in layers.items()}
+            after_idx = {n: [int(i) for i in l.w_mps_quantizer.alpha.argmax(dim=0)] for n, l in layers.items()}
             c1 = float(m.get_cost('ne16'))
             chosen = {}
             for mt in re.finditer(r"\* Layer '([^']+)' cost decreased.*?\n\tprecisions: (\[.*?\])\n\toriginal:\s+(\[.*?\])\n\tnew:\s+(\[.*?\])", buf.getvalue()):
@@ -242,13 +245,14 @@ def run(ctx):
                 order, ps, init, tbl = tables[n]
                 fin = [after[n].count(p) for p in ps]
                 rec['layers'][n] = {'precisions_sorted': ps, 'counts_before': init, 'counts_after': fin, 'chosen_by_refinement': chosen.get(n, init), 'table': tbl,
+                                    'order': order, 'alpha_before': alpha0[n], 'own_index_after': after_idx[n],
                                     'demoted_channels': sum(1 for a, b in zip(before[n], after[n]) if b < a)}
             qids = [id(l.w_mps_quantizer) for l in layers.values()]
             shared = len(set(qids)) < len(qids)
             rec['shared_weight_quantizer'] = shared
             key_sfx = ':shared-weight-quantizer' if shared else ''      # (non-ascending precision tuples were repaired: no suffix, no known finding)
             info = {k: v for k, v in rec.items() if k != 'layers'}
-            info['layers'] = {n: {k: v for k, v in d.items() if k != 'table'} for n, d in rec['layers'].items()}
+            info['layers'] = {n: {k: v for k, v in d.items() if k not in ('table', 'alpha_before', 'own_index_after')} for n, d in rec['layers'].items()}
             oracle(all(d['demoted_channels'] == 0 for d in rec['layers'].values()), 'refine-demotes-channel' + key_sfx, info)
             oracle(all(d['counts_after'] == d['chosen_by_refinement'] for d in rec['layers'].values()), 'refine-counts-differ-from-chosen' + key_sfx, info)
             oracle(math.isfinite(c1) and c1 <= c0 * (1 + 1e-6), 'refine-raises-cost' + key_sfx, info)
@@ -282,13 +286,26 @@ def run(ctx):
                         continue      # shared selectors: open known finding, the final counts are not those of this layer's refinement
                     tbl = [([Nat(x) for x in v], Fraction(cst)) for v, cst in sorted(d['table'].items())]
                     skip = [Nat(i) for i, p in enumerate(d['precisions_sorted']) if p == 0]
-                    ex.append('run_refine %s %s %s' % (coq(tbl), coq(skip), coq([Nat(x) for x in d['counts_before']])))
+                    # the whole refinement of the layer (search, then reassignment of its alpha matrix): Model.run_pipeline,
+                    # the composition C20_no_channel_demoted_any_order is about
+                    order = d['order']
+                    pos = [order.index(k) for k in range(len(order))]
+                    sc = [[Fraction(x) for x in row] for row in d['alpha_before']]
+                    d['tie_free'] = all(len(set(row)) == len(row) for row in sc) and all(len({sc[p][c] for p in range(len(sc))}) == len(sc) for c in range(len(sc[0])))
+                    ex.append('run_pipeline %s %s %s %s %s' % (coq(tbl), coq(skip), coq([Nat(x) for x in order]), coq([Nat(x) for x in pos]), coq(sc)))
                     refs.append((rec, n, d))
             if ex:
                 vals = ctx.coq_eval_sharded('refine', ['Plinio.Model.Reassign'], '', ex, shard=4)
-                for (rec, n, d), v in zip(refs, vals):
+                for (rec, n, d), (v, massign) in zip(refs, vals):
                     ctx.corr += 1
                     d['model_counts'] = v
+                    if d['tie_free']:
+                        ctx.corr += 1
+                        ctx.dist['pipeline:channel-by-channel'] += 1
+                        if list(massign) != d['own_index_after']:
+                            mism.append(('pipeline (search + reassignment, own precision index of every channel)',
+                                         {'C': rec['C'], 'precisions': rec['precisions'], 'kind': rec['kind'], 'seed': rec['seed'], 'layer': n,
+                                          'counts_before': d['counts_before'], 'impl_own_index_after': d['own_index_after']}, list(massign)))
                     if v != d['counts_after']:
                         mism.append(('refine', {'C': rec['C'], 'precisions': rec['precisions'], 'kind': rec['kind'], 'seed': rec['seed'], 'layer': n,
                                                 'counts_before': d['counts_before'], 'counts_after': d['counts_after']}, v))
@@ -305,7 +322,7 @@ def run(ctx):
             ctx.violation('model-eval-broken', {'notes': ctx.notes}, 'the model could not be evaluated', no_input=True)
     if mism and not ctx.violations:
         what, c, mv = mism[0]
-        c = {k: v for k, v in c.items() if k != 'table'}
+        c = {k: v for k, v in c.items() if k not in ('table', 'alpha_before')}
         ctx.violation('correspondence-broken', {'what': what, 'case': c, 'model_value': mv, 'n_mismatches': len(mism), 'correspondence': 'Model/Reassign.v vs plinio.methods.mps.utils'},
                       'model and implementation disagree on %d observations (first: %s, model %r, case %s) but the property oracle found no failing input outside the known findings' % (len(mism), what, mv, str(c)[:500]), no_input=True)
 
